@@ -122,6 +122,9 @@ def run(rep):
     sem.query_multi_spec(rep, 'R08.1', qma, 'AdapterLookupBase.queryMultiAdapter')
     sem.names_spec(rep, 'R08.1', names, 'AdapterLookupBase.names')
     sem.subscribers_spec(rep, 'R08.1', subs, 'AdapterLookupBase.subscribers')
+    for fn_ in ('lookup', 'lookup1', 'adapter_hook', 'lookupAll', 'subscriptions'):
+        sem.fetch_order_spec(rep, 'R08.2', find_def(mod, 'LookupBase.' + fn_),
+                             'LookupBase.' + fn_)
     sem.cached_lookup_spec(rep, 'R08.2', lookup, 'LookupBase.lookup', '_uncached_lookup',
                            '_getcache', 'single-or-tuple', True,
                            ['required', 'provided', 'name'])
